@@ -246,7 +246,17 @@ impl<'a, 'b> SGen<'a, 'b> {
                     [Expr::Float("1.5".into()), Expr::Float("0.25".into()), Expr::Float("2e3".into()), Expr::Float(".5".into()), Expr::Un(UnOp::Neg, bx(Expr::Float("3.5".into())))][self.src.below(5)].clone()
                 }
             }
-            STy::Complex(_) => [Expr::Imag("2.5".into(), true, false), Expr::Float("1.5".into()), lit_int(3)][self.src.below(3)].clone(),
+            STy::Complex(_) => [
+                Expr::Imag("2.5".into(), true, false),
+                Expr::Float("1.5".into()),
+                lit_int(3),
+                Expr::Imag("0.5".into(), true, true),
+                Expr::Imag("3".into(), false, false),
+                Expr::Un(UnOp::Neg, bx(Expr::Imag("4".into(), false, false))),
+                Expr::Un(UnOp::Neg, bx(Expr::Imag("1.5".into(), true, false))),
+                Expr::Imag("7".into(), false, true),
+            ][self.src.below(8)]
+            .clone(),
             STy::Bool => Expr::Bool(self.src.bool()),
             STy::BitReg(n) => {
                 let mut s = String::from("\"");
@@ -256,7 +266,16 @@ impl<'a, 'b> SGen<'a, 'b> {
                 s.push('"');
                 Expr::BitStr(s)
             }
-            STy::Duration => Expr::Timing(format!("{}", 1 + self.src.below(200)), false, ["ns", "us", "ms", "s", "dt", "µs"][self.src.below(6)].to_string(), false),
+            STy::Duration => {
+                let unit = ["ns", "us", "ms", "s", "dt", "µs"][self.src.below(6)].to_string();
+                let n = 1 + self.src.below(200);
+                match self.src.below(6) {
+                    0 | 1 | 2 => Expr::Timing(format!("{n}"), false, unit, false),
+                    3 => Expr::Timing(format!("{n}.5"), true, unit, false),
+                    4 => Expr::Un(UnOp::Neg, bx(Expr::Timing(format!("{n}"), false, unit, false))),
+                    _ => Expr::Timing(format!("{n}"), false, unit, true),
+                }
+            }
             STy::Angle(_) | STy::Bit => return None,
         })
     }
@@ -488,6 +507,18 @@ impl<'a, 'b> SGen<'a, 'b> {
             return Stmt::Barrier(vec![self.qubit_operand()]);
         };
         let name = if self.fault() && !self.p.usage { self.undeclared() } else { name };
+        // usage profile: a value of a kind the target never accepts (float literal into
+        // int/uint/bool/duration, boolean literal into float), alone or on top of a const mutation
+        if self.p.usage && self.src.chance(1, 8) {
+            let bad = match &ty {
+                STy::Int(_) | STy::UInt(_) | STy::Bool | STy::Duration => Some(Expr::Float("2.5".into())),
+                STy::Float(_) => Some(Expr::Bool(true)),
+                _ => None,
+            };
+            if let Some(value) = bad {
+                return Stmt::Assign { target: LValue::Id(name), op: AssignOp::Assign, value };
+            }
+        }
         let mut value = match &ty {
             STy::Bit if self.src.bool() => Expr::Measure(self.scalar_qubit()),
             // integer-literal assignments are typed by a separate path: use variables/casts here
